@@ -49,6 +49,8 @@ def _coq_str(s: str) -> str:
     return '[' + ';'.join(str(ord(c)) for c in s) + ']%N'
 
 
+MODULE_PREFIXES = ('os.', 'posixpath.', 'ntpath.', 'genericpath.', 'unicodedata.', 'urllib.', 'pathlib.', 'str.', 'string.')
+
 # markers for the path parameter and os.path.join(self.path, path); they may only occur inside the abspath() call that is
 # the model's SAbs, anything else fails closed (the markers are not Coq terms)
 PATH_PARAM = '<path-parameter>'
@@ -83,12 +85,9 @@ class _Tr:
     def assign(self, name: str, value: ast.AST) -> None:
         """A local: a string expression, or a named boolean (`inside = a == b or a.startswith(c)`), kept as 'B:' + gx."""
         try:
+            self.env[name] = 'B:' + self.gx(value)      # booleans first: x.startswith(y) must not be taken for a string
+        except TranslateError:
             self.env[name] = self.sx(value)
-        except TranslateError as e1:
-            try:
-                self.env[name] = 'B:' + self.gx(value)
-            except TranslateError:
-                raise e1
 
     def helper_call(self, n: ast.AST):
         """(function, translator with the parameters bound to the translated arguments) when `n` is a call of a helper
@@ -288,6 +287,20 @@ class _Tr:
                     and isinstance(n.args[0], (ast.List, ast.Tuple)) and len(n.args[0].elts) == 2:
                 a, b = n.args[0].elts          # character-wise: translated faithfully, never accepted by raise_sound
                 return f'(SCommonPrefix {self.sx(a)} {self.sx(b)})'
+            # a transformation of ONE guard string the language has no meaning for (x.strip(), x.upper(),
+            # unicodedata.normalize('NFKC', x), os.path.realpath(x), os.path.expanduser(x) ...; other arguments constants):
+            # written down by name as SOpaque, which raise_sound never accepts (named obligation instead of a translator
+            # failure); tests (startswith, is...) are not strings
+            if isinstance(f, ast.Name) or (fd or '').startswith(MODULE_PREFIXES):
+                name, cands = fd, [a for a in n.args if not isinstance(a, ast.Constant)]       # f(x, 'const' ...)
+            elif isinstance(f, ast.Attribute):
+                name, cands = f.attr, ([f.value] if all(isinstance(a, ast.Constant) for a in n.args) else [])   # x.m('const' ...)
+            else:
+                name, cands = None, []
+            last = (name or '').split('.')[-1]
+            if name and len(cands) == 1 and not last.startswith(('is', 'starts', 'ends', 'exists', '_')) \
+                    and last not in ('open', 'stat', 'lstat', 'walk', 'listdir', 'scandir', 'getcwd', 'len', 'bool', 'int'):
+                return f'(SOpaque {_coq_str(name)} {self.sx(cands[0])})'
         self.fail(n, 'unrecognised string expression')
 
     def gx(self, n: ast.AST) -> str:
